@@ -54,6 +54,7 @@ struct TaskResult {
   uint64_t compile_fp = 0, exec_fp = 0;
   bool ok = false;
   long long steps = 0;
+  bool abandoned = false;
   int interference = 0;   // 1: a second VM built from the same compile result stopped at another VM's breakpoint, 2: it ran differently from a VM on a pristine copy, 3: the compile result itself changed
   bool operator==(const TaskResult &o) const { return compile_fp == o.compile_fp && exec_fp == o.exec_fp; }
 };
@@ -61,7 +62,15 @@ struct TaskResult {
 // what one caller does: compile its project, then drive a VM on the result through its ops
 TaskResult run_task(const Task &t, long long step_budget) {
   TaskResult res;
-  CodegenResult r = Theo::compile(t.proj.files, t.proj.main);
+  CodegenResult r;
+  try { r = Theo::compile(t.proj.files, t.proj.main); }
+  catch (SimAbort &) {
+    // the compile was abandoned at a cost cap (bounded-but-slow expansion, or a parse that keeps spinning).  That is
+    // not judged by itself, but it is an observable outcome: it must be the same whenever this task is compiled
+    g_slow_abandoned = false;
+    res.compile_fp = 0xABA2D02EDULL; res.exec_fp = 0; res.ok = false; res.abandoned = true;
+    return res;
+  }
   res.compile_fp = fingerprint_result(r);
   res.ok = r.generated_correctly;
   if (!r.generated_correctly) return res;
@@ -219,7 +228,7 @@ void *thread_main(void *p) {
   ThreadArg *a = (ThreadArg *)p;
   Scheduler::tl_task = a->me;
   a->s->start(a->me);
-  try { *a->out = run_task(*a->task, a->budget); } catch (...) { *a->threw = true; }
+  try { *a->out = run_task(*a->task, a->budget); } catch (SimAbort &) { *a->threw = !g_slow_abandoned; } catch (...) { *a->threw = true; }
   a->s->yield_point(0);  // API boundary
   a->s->finish(a->me);
   Scheduler::tl_task = -1;
@@ -237,6 +246,8 @@ void exec_mt_plan(const Plan &plan, Ctx &ctx, Outcome &out) {
   long long budget = 3000;
   { auto it = plan.knobs.find("vm_steps"); if (it != plan.knobs.end()) budget = it->second; }
   bool free_running = plan.knobs.count("free_running") && plan.knobs.at("free_running");
+  // in this world an abandoned compile is just another outcome to compare, so the caps can be tight and the runs stay short
+  g_pass_cost_cap = 3000000LL; g_lr_total_cap = 2000000LL;
   for (auto &t : plan.tasks) ctx.evs("task", project_brief(t.proj));
 
   // history helper: a child forked before this process touches the library for this plan runs every task alone in
@@ -248,6 +259,8 @@ void exec_mt_plan(const Plan &plan, Ctx &ctx, Outcome &out) {
     helper = fork();
     if (helper == 0) {
       close(hfd[0]);
+      die_with_parent();
+      arm_guard(30, 300);
       set_phase(PH_COMPILE);
       std::vector<uint64_t> fps(2 * n, 0);
       for (size_t k = n; k-- > 0;) { TaskResult r = run_task(plan.tasks[k], budget); fps[2 * k] = r.compile_fp; fps[2 * k + 1] = r.exec_fp; }
@@ -326,6 +339,7 @@ void exec_mt_plan(const Plan &plan, Ctx &ctx, Outcome &out) {
                   : tr->interference == 4 ? "two VMs built from one compile result: after clearing its own breakpoints one of them still stops (at the other's breakpoint)"
                   : tr->interference == 5 ? "two VMs built from one compile result: after clearing its breakpoints one of them runs differently from a clean machine"
                   : "two VMs built from one compile result: the one with a breakpoint does not stop where a machine of its own would"));
+    if (alone[k].abandoned) ctx.stats.inc("tasks_abandoned_slow");
     if (alone[k].ok) ctx.stats.inc("tasks_compiled_ok"); else ctx.stats.inc("tasks_with_compile_errors");
   }
   if (helper > 0) {
@@ -365,6 +379,11 @@ Plan gen_mt_plan(const std::string &, Rng &rng, long long, const std::string &ti
     Task t;
     int variant = k == 0 ? 0 : (int)rng.below(10);   // later tasks are often near-copies of the first: same rules, names, files - other positions
     if (twin && k == 1) t.proj = p.tasks[0].proj;
+    else if (rng.chance(1, 4)) {
+      // a task that is all about macros: a random set of short patterns (shapes like `1 a`, `<ID>`, `<INT> <ID>`, `2 * <ID>`)
+      // or one of the families; different tasks get different sets, so that state keyed on part of a definition shows
+      t.proj = random_macro_project(rng, rng.chance(7, 10));
+    }
     else if (k > 0 && variant < 5 && p.tasks[0].proj.has_ast) {
       t.proj = p.tasks[0].proj;
       if (variant < 2) { t.proj.layout.seed = rng.next(); t.proj.layout.style = (int)rng.below(2); t.proj.layout.nfiles = (int)rng.range(1, 3); render(t.proj); }   // same AST, other layout
